@@ -4,7 +4,9 @@ Programs are generated *as real source files* (a temporary package directory on 
 documented in DOCUMENTATION.rst "AST resolver": super().__init__ / super(X, self).__init__, call of a function, class,
 class method, static method, method of self, locally imported callable, method of a local / module-level instance,
 kwargs.pop / kwargs.get, kwargs stored in an attribute (plain, dict(**kwargs), dict(h=1, **kwargs), dict(h=1) + update)
-and used in a method or property, constant and run-time conditionals, hard-coded positional / keyword arguments, *args.
+and used in a method or property, constant and run-time conditionals, two unconditional calls of one callee, hard-coded
+positional / keyword arguments, *args, shadowing of a callee's parameter, classes without __init__ or without **kwargs in
+the middle of a hierarchy, multiple inheritance (diamond, non-cooperative / mixin / skipped bases).
 
 Oracle (independent of jsonargparse, it is the Python interpreter): every generated callable starts with
 `_rec(<where>, a=a, b=b, ...)`, every pop/get is followed by `_rec(<where>#pop, name=value)`.  For a candidate name c (every
